@@ -4,6 +4,6 @@ CONSTANTS
   AlphaSel = "full"
 VIEW TableView
 INVARIANTS TypeOK RowOK RowGateBeforeInit RowDuplicateInitRejected RowPrematureInitializedRejected
-  RowRepeatedInitializedRejected RowPingAlways RowModernServedIffMetaComplete RowRemovedMethodsNotFound
+  RowRepeatedInitializedRejected RowFirstInitializedTakesEffect RowPingAlways RowModernServedIffMetaComplete RowRemovedMethodsNotFound
   RowLeadBreaksGate ExportLeads ExportRow
 CHECK_DEADLOCK FALSE
